@@ -11,6 +11,7 @@
  */
 #include "modules/iauth.h"
 #include "vp.h"
+/* irc_pton reads hex digit values from the table ctype_init() fills (src/common.c) */
 #ifdef REPLAY
 #include <arpa/inet.h>
 #endif
@@ -118,11 +119,18 @@ void harness(void)
     unsigned int n, n2, r, k, i, nzero_groups = 0;
     int ok;
 
+    ctype_init();
     vp_bytes(&a, sizeof(a));
 #ifdef V4
     VP_ASSUME(irc_inaddr_is_ipv4(a));
 #else
     VP_ASSUME(!irc_inaddr_is_ipv4(a));
+#ifdef VP_GROUPMAX
+    /* stated bound of the quick tier: every 16-bit group is 0..VP_GROUPMAX (all 256 zero
+     * patterns, narrow digit widths); the thorough tier has no such bound */
+    for (k = 0; k < 8; k++)
+        VP_ASSUME(ntohs(a.in6[k]) <= VP_GROUPMAX);
+#endif
 #endif
     for (i = 0; i < IRC_NTOP_MAX + 2; i++)
         text[i] = text2[i] = 0x55;
@@ -148,7 +156,10 @@ void harness(void)
     /* accepted by the daemon's own parser and denotes the same address */
     r = irc_pton(&b, NULL, text, 0);
     VP_ASSERT(r == n, "own parser accepts the whole text");
-    VP_ASSERT(memcmp(&b, &want, sizeof(b)) == 0, "own parser yields the same address");
+    for (k = 0, ok = 1; k < 8; k++)
+        if (b.in6[k] != want.in6[k])
+            ok = 0;
+    VP_ASSERT(ok, "own parser yields the same address");
 
 #endif
 #ifdef PART_REF
@@ -178,30 +189,35 @@ void harness(void)
 #endif
 #ifdef PART_IDEM
     /* parsing an accepted plain address and printing it again is idempotent */
-    n2 = irc_ntop(text2, IRC_NTOP_MAX, &b);
+    /* CBMC 6.11 loses precision when a union that was written through one member with a
+     * non-literal index (irc_pton: addr->in6[ii++]) is read through another member (as
+     * irc_inaddr_is_ipv4 does): rebuild the parsed address bytewise from its in6[] view. */
+    { irc_inaddr b2; uint8_t *p = (uint8_t *)&b2;
+      for (k = 0; k < 8; k++) { uint16_t v = b.in6[k]; p[2 * k] = (uint8_t)(v & 0xff); p[2 * k + 1] = (uint8_t)(v >> 8); }
+      n2 = irc_ntop(text2, IRC_NTOP_MAX, &b2); }
     VP_ASSERT(n2 == n && memcmp(text, text2, n < IRC_NTOP_MAX ? n + 1 : 1) == 0, "print(parse(print(a))) == print(a)");
 #endif
 
 #ifdef V4
     VP_COVER(a.in6[5] == 0, "IPv4-compatible (::a.b.c.d) input");
     VP_COVER(a.in6[5] == 65535 && n == 15, "IPv4-mapped, 15 characters");
-    VP_COVER(n == 7, "shortest dotted quad");
 #else
     for (k = 0; k < 8; k++)
         if (a.in6[k] == 0)
             nzero_groups++;
-    VP_COVER(nzero_groups == 0 && n == 39, "no zero group, 39 characters");
-    VP_COVER(nzero_groups == 8, "all-zero address");
+#ifdef PART_REF
     VP_COVER(a.in6[0] == 0 && a.in6[1] != 0 && nzero_groups == 1, "single leading zero group");
-    VP_COVER(a.in6[0] == 0 && a.in6[1] == 0 && a.in6[2] != 0, "leading zero run of two");
-    VP_COVER(a.in6[7] == 0 && a.in6[6] == 0 && a.in6[5] != 0 && a.in6[0] != 0, "trailing zero run");
     VP_COVER(a.in6[0] != 0 && a.in6[1] == 0 && a.in6[2] != 0 && a.in6[3] == 0 && a.in6[4] == 0 && a.in6[5] != 0 && a.in6[6] != 0 && a.in6[7] != 0,
              "short zero run followed by a longer one");
-    VP_COVER(a.in6[0] != 0 && a.in6[1] == 0 && a.in6[2] == 0 && a.in6[3] != 0 && a.in6[4] == 0 && a.in6[5] != 0 && a.in6[6] != 0 && a.in6[7] != 0,
-             "longer zero run followed by a shorter one");
+    VP_COVER(nzero_groups == 8, "all-zero address");
+#elif defined(PART_OWN)
     VP_COVER(a.in6[0] != 0 && a.in6[1] == 0 && a.in6[2] != 0 && a.in6[3] == 0 && a.in6[4] != 0 && a.in6[5] == 0 && a.in6[6] == 0 && a.in6[7] != 0,
              "two single zero groups then a run of two");
-    VP_COVER(a.in6_32[0] == 0 && a.in6_32[1] == 0 && a.in6[4] == 0 && a.in6[5] == 65535 && a.in6[6] == 0 && a.in6[7] != 0,
-             "::ffff:0:x is not treated as IPv4");
+    VP_COVER(a.in6[7] == 0 && a.in6[6] == 0 && a.in6[5] != 0 && a.in6[0] != 0, "trailing zero run");
+#else
+    VP_COVER(a.in6_32[0] == 0 && a.in6_32[1] == 0 && a.in6[4] == 0 && a.in6[5] == 0 && a.in6[6] == 0 && a.in6[7] != 0,
+             "::x (upper half of the last 32 bits zero) is printed as IPv6, not as IPv4");
+    VP_COVER(nzero_groups == 0, "no zero group");
+#endif
 #endif
 }
